@@ -506,6 +506,12 @@ def _lines_map(lst):
     return out, okk
 
 
+def _lex_bytes(lex):
+    if isinstance(lex, str):
+        return lex.encode('utf-8')
+    return bytes_of_json(lex)
+
+
 def replay(v, native):
     ob = v['obligation']
     inp = v['inputs']
@@ -526,6 +532,8 @@ def replay(v, native):
                 bad_struct = True
             prev = e_
         bad_blank = any(s_ < len(bs) and bs[s_] in (32, 9, 10, 11, 12, 13) for lex, s_, e_, ln in toks)
+        # ... or whose lexeme is not the text it spans
+        bad_blank = bad_blank or any(e_ <= len(bs) and list(_lex_bytes(lex)) != bs[s_:e_] for lex, s_, e_, ln in toks)
         bad_cover = False
         for i in range(a, b):
             if not any(s_ <= i < e_ for lex, s_, e_, ln in toks):
@@ -592,4 +600,13 @@ def replay(v, native):
             if nonblank and after.get(li + 1) != (None if who == 'human' else who):
                 wrong = True
         bad['L2-new-text-belongs-to-author'] = wrong
+    edit = (v.get('shape') or {}).get('edit')
+    if edit and edit[0] == 'ins':
+        who = inp['author']
+        pos = edit[1] if isinstance(edit[1], int) else len(old)
+        blank = (32, 9, 10, 11, 12, 13)
+        ins_nonblank = sum(1 for i in range(pos, min(pos + edit[2], len(new))) if new[i] < 0x80 and new[i] not in blank)
+        credited = sum(1 for i in range(len(new)) if new[i] < 0x80 and new[i] not in blank and
+                       any(a <= i < b and w_ == who and t_ == inp.get('ts', 20) for (a, b, w_, t_) in r['out']))
+        bad['L2-inserted-text-belongs-to-reporter'] = credited < ins_nonblank
     return {'reproduced': bool(bad.get(ob)), 'native': r}
